@@ -1,13 +1,13 @@
 typedef unsigned long u64;
-u64 ga = 136; u64 gb = 263; u64 gc_[4] = {1,2,3,324}; static u64 sa = 449; static u64 sb[3] = {910,5,6};
+u64 ga = 601; u64 gb = 115; u64 gc_[4] = {1,2,3,690}; static u64 sa = 944; static u64 sb[3] = {757,5,6};
 __thread u64 tva = 3; __thread u64 tvb = 4;
 extern u64 ext_a, ext_b; extern u64 ext_f(u64); extern u64 ext_g(u64);
-__attribute__((noinline)) u64 fn0(u64 x) { return x * 9 + ga + sb[0]; }
-__attribute__((noinline)) static u64 sf0(u64 x) { return (x ^ 136) + sa + gb; }
-__attribute__((noinline)) u64 fn1(u64 x) { return x * 15 + ga + sb[1]; }
-__attribute__((noinline)) static u64 sf1(u64 x) { return (x ^ 263) + sa + gb; }
-__attribute__((noinline)) u64 fn2(u64 x) { return x * 471 + ga + sb[2]; }
-__attribute__((noinline)) static u64 sf2(u64 x) { return (x ^ 324) + sa + gb; }
+__attribute__((noinline)) u64 fn0(u64 x) { return x * 185 + ga + sb[0]; }
+__attribute__((noinline)) static u64 sf0(u64 x) { return (x ^ 601) + sa + gb; }
+__attribute__((noinline)) u64 fn1(u64 x) { return x * 509 + ga + sb[1]; }
+__attribute__((noinline)) static u64 sf1(u64 x) { return (x ^ 115) + sa + gb; }
+__attribute__((noinline)) u64 fn2(u64 x) { return x * 969 + ga + sb[2]; }
+__attribute__((noinline)) static u64 sf2(u64 x) { return (x ^ 690) + sa + gb; }
 u64 (*const ftab[])(u64) = {fn0, fn1, fn2, sf0, sf1, sf2};
 u64 *ptab[] = { &ga, &gb, &gc_[2], &sa, &sb[1], &ext_a };
 __attribute__((constructor)) static void ctor_a(void) { ga += 1; }
